@@ -27,6 +27,10 @@ pub struct GraphSpec {
     /// files without dependencies carry no command (saves a sub-process per leaf)
     #[serde(default)]
     pub no_solo: bool,
+    /// lean rendering: files with >= 2 edges end with their last dependency directive (no
+    /// command, no text after it)
+    #[serde(default)]
+    pub eof_dep: bool,
 }
 
 pub fn dir_name(d: u8) -> &'static str {
@@ -118,7 +122,9 @@ impl GraphSpec {
             let mine: Vec<&(usize, usize, EdgeForm)> = self.edges.iter().filter(|e| e.0 == i).collect();
             if !self.rich {
                 let mut cats = String::new();
-                for (_, j, form) in mine.iter() {
+                let split_last = self.eof_dep && mine.len() >= 2;
+                let upto = if split_last { mine.len() - 1 } else { mine.len() };
+                for (_, j, form) in mine.iter().take(upto) {
                     let target = rel_path(my_dir, &self.out_path(*j));
                     match form {
                         EdgeForm::Include => s.push_str(&format!("TXTPP#include {target}\n")),
@@ -127,6 +133,20 @@ impl GraphSpec {
                             cats.push_str(&format!("cat {target}; "));
                         }
                     }
+                }
+                if split_last {
+                    s.push_str(&format!("-TXTPP#run {cats}echo post{i}_0 >> {MARK}/log\n"));
+                    let (_, j, form) = mine[mine.len() - 1];
+                    let target = rel_path(my_dir, &self.out_path(*j));
+                    s.push_str(&match form {
+                        EdgeForm::Include => format!("TXTPP#include {target}"),
+                        EdgeForm::AfterCat => format!("TXTPP#after {target}"),
+                    });
+                    if i % 2 == 0 {
+                        s.push('\n');
+                    }
+                    p.put(&self.src_path(i), s);
+                    continue;
                 }
                 if !mine.is_empty() {
                     s.push_str(&format!("-TXTPP#run {cats}echo post{i}_0 >> {MARK}/log\n"));
@@ -183,6 +203,7 @@ pub fn graph_from_mask(n: usize, mask: u64, forms: u64, pre: u64, dirs: &[u8]) -
         dirs: (0..n).map(|i| dirs.get(i).copied().unwrap_or(0)).collect(),
         rich: false,
         no_solo: false,
+        eof_dep: false,
     }
 }
 
@@ -236,5 +257,5 @@ pub fn gen_graph(c: &mut Choices, min_n: usize, max_n: usize, acyclic: bool, sub
     edges.sort_by_key(|e| e.0);
     let pre_marker = (0..n).map(|_| c.chance(1, 3)).collect();
     let dirs = (0..n).map(|_| if subdirs { c.weighted(&[3, 1, 1]) as u8 } else { 0 }).collect();
-    GraphSpec { n, edges, pre_marker, dirs, rich: c.chance(1, 2), no_solo: false }
+    GraphSpec { n, edges, pre_marker, dirs, rich: c.chance(1, 2), no_solo: false, eof_dep: c.chance(1, 3) }
 }
